@@ -21,6 +21,19 @@ inspected.  Case kinds:
   doc    parsed or built Copyright with 1..n Files paragraphs and
          interleaved License paragraphs; find_files_paragraph and
          every paragraph's matches; optional re-assignment          (M.find, M.match, M.stale)
+  doc+seps  the same for PARSED documents whose paragraphs are separated by
+         WHITESPACE-ONLY lines (blanks / tabs: ' ', '\\t', '  \\t', ...) mixed
+         with empty ones, in runs of 1..3 lines; forced adjacencies across
+         such a run: header/Files, Files/Files, Files/License,
+         License/Files; Files field first / last / in the middle of its
+         paragraph (so the whitespace-only line directly follows a Files
+         value, a continuation line of it, or a License text line);
+         sources: list of str with / without line ends, list of bytes,
+         StringIO, BytesIO, on-disk file in text and binary mode.
+         all_files_paragraphs() against what was written, then
+         find_files_paragraph and every matches() as for every parsed
+         document; ~30% of the parsed starts of build histories carry
+         such separators too          (M.ws.order, M.ws.find, M.match, M.ws-build.order)
   raw    patterns with blanks / tabs / newlines, which cannot be
          written in a Files field: globs_to_re driven through the
          real FilesParagraph.matches of a subclass whose `files`
@@ -47,6 +60,17 @@ the API and parsed); several adds in a row with nothing observed in between;
 adds to parsed documents that end in License paragraphs (including documents
 with License paragraphs only).
 
+Unchanged tree, whitespace-only separators (probed before the class was added):
+every line of blanks/tabs (also CR, FF, VT variants) separates paragraphs exactly
+like an empty line, alone or in runs with empty lines, for list and file sources,
+with and without line ends, str and bytes; the workload is silent on it.
+Mutants of the separator class (repo tests still 234 passed), all exit 1 with
+`files-paragraph-lost-at-whitespace-only-separator`:
+  deb822 _blank_line_whitespace = ^[ ]{0,2}$|^\\t$ ('  \\t' no longer separates)
+  deb822 _initial_blank_line = ^$ (document ends at an empty line followed by a blank one)
+  Copyright() passes strict={'whitespace-separates-paragraphs': False}
+  Copyright() drops blank-only lines from list input ("normalise")
+
 Mutants of this class tried on a scratch copy (repo tests still 234 passed):
   find caches list(all_files_paragraphs()) at first use          caught (find-misses-matching-paragraph, find-first-match-wins)
   add_files_paragraph: `if not last_i: insert(0, ..)`            caught (files-paragraph-order-differs-from-documented-insertion)
@@ -57,6 +81,10 @@ Mutants of this class tried on a scratch copy (repo tests still 234 passed):
 """
 import io
 import itertools
+import json
+import os
+import random
+import tempfile
 
 from ..models import globmatch as G
 
@@ -67,7 +95,13 @@ RULE = ('Seeded pattern lists (1..3, thorough 1..4 patterns of 1..5, thorough 1.
         'direct globs_to_re use, blank/tab/newline) x names built as literal expansions of those patterns with 0..2 '
         'single-character edits (plus some random names); bounded-exhaustive sweeps of small pattern/name spaces; '
         'parsed and built documents with 1..5 (thorough 1..7) Files paragraphs interleaved with License paragraphs, 15% of '
-        'them over a pool of realistic path globs; histories of files re-assignments; BUILD HISTORIES through the public API '
+        'them over a pool of realistic path globs; PARSED DOCUMENTS WITH WHITESPACE-ONLY SEPARATOR LINES (1..4, thorough 1..6 Files '
+        'paragraphs + License paragraphs; in front of ~70% of the paragraphs a run of 1..3 separator lines containing a line of '
+        'blanks/tabs - alone, before or after empty lines, two of them - otherwise one empty line; forced adjacencies across such a '
+        'run header/Files, Files/Files, Files/License, License/Files; Files field first, last or in the middle of its paragraph, '
+        'one-line and continuation-line values; sources list of str with and without line ends, list of bytes, StringIO, BytesIO, '
+        'on-disk file in text and binary mode; the same separators in ~30% of the parsed starts of build histories); '
+        'histories of files re-assignments; BUILD HISTORIES through the public API '
         '(start: empty Copyright() or a parsed document with 0..4 Files paragraphs; 2..12 steps of add_files_paragraph / '
         'add_license_paragraph / files re-assignment, half of the added lists overlapping a list already in the document; '
         'query steps - paragraph order, find_files_paragraph for 3..7 near-miss names, dump()-then-parse agreement - after '
@@ -83,6 +117,19 @@ ASSUMPTIONS = ['vp.models.globmatch is a faithful model of the copyright-format 
                'an illegal escape anywhere in a paragraph\'s list must surface as MachineReadableFormatError from matches(); '
                'for find_files_paragraph over a document containing an illegal paragraph either that error or the correct '
                'last match with no illegal paragraph after it is accepted',
+               'parsed documents with whitespace-only separator lines: domain = lines of blanks and tabs only (Policy 5.1 wording; no CR, '
+               'FF, VT), standing BETWEEN paragraphs (never in front of the header, never after the last paragraph, never inside a '
+               'field value), parsed with the default setting of Copyright() under which deb822 documents '
+               '`whitespace-separates-paragraphs` = True; the document is then the same document as with empty separator lines and is '
+               'judged like every parsed document (all_files_paragraphs() = the Files paragraphs written, identified by their unique '
+               'Copyright id and pattern tuple; find_files_paragraph = last match / None; matches = glob model)',
+               'whitespace-only separators, guards: (a) a disagreement of all_files_paragraphs() (or an exception from Copyright()) is '
+               'reported only if the CONTROL document - same paragraphs, same source kind, every whitespace-only line replaced by an '
+               'empty one - does show exactly what was written; otherwise it is harness sanity (inconclusive / the ordinary '
+               'unexpected-exception path), as for every other parsed document; (b) stand-alone License paragraphs that differ from what '
+               'was written while the Files paragraphs agree change no resolution: counted as ws:note:* / ws_notes, never a violation '
+               'of this property (a build history is then not driven from that start); (c) bytes sources are UTF-8, the default '
+               'encoding of Copyright()',
                'names are str; patterns containing whitespace are only reachable through globs_to_re and are observed '
                'through the real FilesParagraph.matches of a subclass overriding the `files` property',
                'build histories: "the last Files paragraph of the document as it is now" is read off an independent model of '
@@ -116,6 +163,7 @@ SIZES = {
     'hist': (12000, 480000),       # x ~8 ops
     'doc': (9000, 360000),         # x ~5 names x ~3 paragraphs
     'raw': (10000, 400000),        # x ~5 names
+    'wsdoc': (3600, 150000),       # x ~5 names x ~3 paragraphs; paragraphs separated by whitespace-only lines
     'build': (5000, 150000),       # x ~5 query steps x ~6 names x ~3 paragraphs, + one dump-then-parse per query step
 }
 
@@ -226,6 +274,79 @@ def gen_names(r, lists, k):
 
 
 # ---------------------------------------------------------------------------
+# whitespace-only paragraph separators (kind 'doc' with 'seps'; parsed starts of kind 'build')
+
+# line bodies (no end of line) of whitespace-only separator lines: blanks and tabs only (Policy 5.1: "lines consisting
+# solely of spaces and tabs"); '' is the ordinary empty separator line
+WS_LINES = [' ', ' ', '\t', '\t', '  \t', '  \t', '  ', ' \t', '\t ', '    ', '\t\t', ' \t \t ']
+# how a separator run is composed; w / v stand for whitespace-only lines drawn from WS_LINES
+WS_RUNS = ['w', 'w', 'w', 'w', 'we', 'ew', 'wv', 'ewe', 'wev', 'eww', 'wee']
+# sources a parsed document is handed to Copyright() as
+WS_MODES = ['parse', 'parse', 'parse-file', 'parse-file', 'parse-noeol', 'parse-bytes', 'parse-bytesio', 'parse-disk',
+            'parse-disk-rb']
+
+
+def is_ws_line(body):
+    return body != '' and body.strip(' \t') == ''
+
+
+def gen_run(r):
+    return [('' if ch == 'e' else r.choice(WS_LINES)) for ch in r.choice(WS_RUNS)]
+
+
+def gen_seps(r, n, p_ws):
+    """One separator run per paragraph (the run stands in front of it); at least one run of the document contains a
+    whitespace-only line."""
+    seps = [gen_run(r) if r.random() < p_ws else [''] for _ in range(n)]
+    if n and not any(is_ws_line(l) for run in seps for l in run):
+        seps[r.randrange(n)] = gen_run(r)
+    return seps
+
+
+def gen_wsdoc_case(r, wide):
+    """A parsed document whose paragraphs are separated by whitespace-only lines mixed with empty ones.  Forced
+    adjacencies (each in front of / behind a whitespace-only run): header/Files, Files/Files, Files/License,
+    License/Files; Files fields first, last and in the middle of their paragraph; one-line and continuation-line
+    Files values; License paragraphs ending in a continuation line."""
+    nf = r.choice((1, 2, 2, 3, 3, 4)) if not wide else r.choice((1, 2, 3, 3, 4, 5, 6))
+    illegal_ok = r.random() < 0.05
+    realistic = r.random() < 0.15
+    shape = r.choice(('header-files', 'files-files', 'files-license-files', 'license-first', 'random', 'random'))
+    paras, lists = [], []
+
+    def files(j):
+        legal = [gl for gl in lists if gl.legal]
+        if j == 0 and r.random() < 0.35:
+            pats = ['*']
+        elif realistic:
+            pats = r.sample(REAL_POOL, r.choice((1, 2, 3, 4)))
+        elif legal and r.random() < 0.3:
+            pats = overlapping_list(r, r.choice(legal), wide)[0]
+        else:
+            pats = gen_list(r, wide, illegal_ok=illegal_ok)
+        paras.append({'F': pats, 'sep': r.choice((0, 0, 1, 2)), 'fo': r.choice((0, 0, 1, 1, 2))})
+        lists.append(G.GlobList(pats))
+
+    if shape == 'license-first':
+        paras.append({'L': 1})
+    for j in range(nf):
+        if shape == 'random' and r.random() < 0.3:
+            paras.append({'L': 1})
+        files(j)
+        if shape == 'files-license-files' and j < nf - 1:
+            paras.append({'L': 1})
+    if shape == 'files-files' and nf == 1:
+        files(1)
+    if shape == 'files-license-files' and nf == 1:
+        paras.append({'L': 1})
+        files(1)
+    if r.random() < 0.3:
+        paras.append({'L': 1})
+    seps = gen_seps(r, len(paras), 0.7)
+    return {'kind': 'doc', 'mode': r.choice(WS_MODES), 'paras': paras, 'seps': seps, 'names': gen_names(r, lists, 5)}
+
+
+# ---------------------------------------------------------------------------
 # build histories (kind 'build')
 
 def escape_literal(name):
@@ -313,7 +434,15 @@ def gen_build_case(r, wide):
                 gl = G.GlobList(p['F'])
                 st['cur'].append(gl)
                 st['all'].append(gl)
-        return {'mode': r.choice(('parse', 'parse', 'parse-file')), 'paras': paras}
+        start = {'mode': r.choice(('parse', 'parse', 'parse-file')), 'paras': paras}
+        # whitespace-only separator lines in ~30% of the parsed starts; drawn from an RNG derived from the paragraphs so
+        # that the seeded stream of the histories themselves is the one the floors were measured with
+        rs = random.Random('ws/' + json.dumps(paras, sort_keys=True))
+        if paras and rs.random() < 0.3:
+            start['seps'] = gen_seps(rs, len(paras), 0.6)
+            if rs.random() < 0.5:
+                start['mode'] = rs.choice(WS_MODES)
+        return start
 
     start = {'mode': 'empty', 'paras': []}
     if shape == 'empty':
@@ -470,6 +599,21 @@ def cases(ctx):
             case['reassign'] = [k, newp]
             case['names'] += gen_names(r, [G.GlobList(newp)], 2)
         yield case
+    # -- parsed documents whose paragraphs are separated by whitespace-only lines (mixed with empty ones)
+    if ctx.shard == 0:
+        for w in (' ', '\t', '  \t'):
+            for mode in ('parse', 'parse-file', 'parse-noeol', 'parse-bytesio', 'parse-disk'):
+                # header/Files, Files/Files, Files/License, License/Files, each across the whitespace-only line alone
+                yield {'kind': 'doc', 'mode': mode, 'seps': [[w], [w], [w], [w], [w]],
+                       'paras': [{'F': ['*'], 'sep': 0, 'fo': 0}, {'F': ['debian/*', 'src/a'], 'sep': 2, 'fo': 1}, {'L': 1},
+                                 {'F': ['debian/rules'], 'sep': 0, 'fo': 2}, {'F': ['*.c'], 'sep': 1, 'fo': 1}],
+                       'names': ['debian/rules', 'debian/x', 'src/a', 'a.c', 'debian/a.c', 'README', 'src/a.in']}
+                yield {'kind': 'doc', 'mode': mode, 'seps': [['', w], [w, ''], [w, w], ['', w, '']],
+                       'paras': [{'L': 1}, {'F': ['a*'], 'sep': 0, 'fo': 1}, {'F': ['a?', 'b'], 'sep': 2, 'fo': 1}, {'L': 1}],
+                       'names': ['ab', 'abc', 'b', 'a', 'c']}
+    r = ctx.rng('wsdoc')
+    for i in range(ctx.size(*SIZES['wsdoc'])):
+        yield gen_wsdoc_case(r, wide)
     # -- build histories through the public API (empty / parsed start, adds, re-assignments, queries, dump-then-parse)
     if ctx.shard == 0:
         yield {'kind': 'build', 'start': {'mode': 'empty', 'paras': []},
@@ -715,27 +859,83 @@ def run_hist(ctx, case):
     ctx.evaluations -= 1
 
 
-def doc_text(paras):
-    out = ['Format: %s\n' % FORMAT, 'Upstream-Name: x\n']
+def para_lines(i, p):
+    """Line bodies (no end of line) of paragraph number i.  `fo` places the Files field first / last / in the middle of
+    a Files paragraph (default first); fo == 2 also ends the paragraph in a continuation line of the License text."""
+    if 'F' not in p:
+        return ['License: L%d' % i, ' text %d' % i]
+    pats = p['F']
+    sep = p.get('sep', 0)
+    if sep == 0:
+        f = ['Files: %s' % ' '.join(pats)]
+    elif sep == 1:
+        f = ['Files: %s' % pats[0]] + [' %s' % x for x in pats[1:]]
+    else:
+        f = ['Files:'] + [' %s' % x for x in pats]
+    c = ['Copyright: c%d' % i]
+    fo = p.get('fo', 0)
+    if fo == 0:
+        return f + c + ['License: L%d' % i]
+    if fo == 1:
+        return c + ['License: L%d' % i] + f
+    return c + f + ['License: L%d' % i, ' text %d' % i]
+
+
+def doc_lines(paras, seps=None, plain=False):
+    """The document as line bodies.  seps[i] is the separator run in front of paragraph i (default: one empty line);
+    plain=True replaces every whitespace-only separator line by an empty one (the control document)."""
+    out = ['Format: %s' % FORMAT, 'Upstream-Name: x']
     for i, p in enumerate(paras):
-        out.append('\n')
-        if 'F' in p:
-            pats = p['F']
-            sep = p.get('sep', 0)
-            if sep == 0:
-                out.append('Files: %s\n' % ' '.join(pats))
-            elif sep == 1:
-                out.append('Files: %s\n' % '\n '.join(pats))
-            else:
-                out.append('Files:\n %s\n' % '\n '.join(pats))
-            out.append('Copyright: c%d\n' % i)
-            out.append('License: L%d\n' % i)
+        run = seps[i] if seps else ['']
+        out.extend(('' if plain else l) for l in run)
+        out.extend(para_lines(i, p))
+    return out
+
+
+def doc_text(paras, seps=None):
+    return ''.join(l + '\n' for l in doc_lines(paras, seps))
+
+
+def _scratch_path(ctx):
+    """A real OS file for the on-disk sources: RAM-backed when the box has /dev/shm (rewritten once per case)."""
+    d = getattr(ctx, '_c16_fdir', None)
+    if d is None:
+        if os.path.isdir('/dev/shm') and os.access('/dev/shm', os.W_OK):
+            d = tempfile.mkdtemp(prefix='vp-%s-' % PROP, dir='/dev/shm')
+            ctx._tmpdirs.append(d)
         else:
-            out.append('License: L%d\n text %d\n' % (i, i))
-    return ''.join(out)
+            d = ctx.tmpdir()
+        ctx._c16_fdir = d
+    return os.path.join(d, 'copyright')
 
 
-def build_doc(case):
+def parse_doc(ctx, lines, mode):
+    """Copyright() over the document given as line bodies, handed over as the requested kind of source."""
+    from debian import copyright as cp
+    if mode == 'parse':
+        return cp.Copyright([l + '\n' for l in lines])
+    if mode == 'parse-noeol':
+        return cp.Copyright(list(lines))
+    text = ''.join(l + '\n' for l in lines)
+    if mode == 'parse-file':
+        return cp.Copyright(io.StringIO(text))
+    if mode == 'parse-bytes':
+        return cp.Copyright([(l + '\n').encode('utf-8') for l in lines])
+    if mode == 'parse-bytesio':
+        return cp.Copyright(io.BytesIO(text.encode('utf-8')))
+    if mode in ('parse-disk', 'parse-disk-rb'):
+        path = _scratch_path(ctx)
+        with open(path, 'wb') as f:
+            f.write(text.encode('utf-8'))
+        f = open(path, 'rb') if mode == 'parse-disk-rb' else open(path, 'r', encoding='utf-8', newline='')
+        try:
+            return cp.Copyright(f)
+        finally:
+            f.close()
+    raise ValueError('unknown document source %r' % (mode,))
+
+
+def build_doc(ctx, case):
     from debian import copyright as cp
     mode = case['mode']
     paras = case['paras']
@@ -749,10 +949,108 @@ def build_doc(case):
             else:
                 c.add_license_paragraph(cp.LicenseParagraph.create(cp.License('L%d' % i, 'text')))
         return c
-    text = doc_text(paras)
-    if mode == 'parse-file':
-        return cp.Copyright(io.StringIO(text))
-    return cp.Copyright(text.splitlines(True))
+    return parse_doc(ctx, doc_lines(paras, case.get('seps')), mode)
+
+
+def _files_view(c):
+    """What all_files_paragraphs() shows: (unique Copyright id, pattern tuple) per paragraph, in its order."""
+    return [(p.copyright, tuple(p.files)) for p in c.all_files_paragraphs()]
+
+
+def _written_ids(paras):
+    return [('c%d' % i) if 'F' in p else ('L%d' % i) for i, p in enumerate(paras)]
+
+
+def _written_files_view(paras):
+    return [('c%d' % i, tuple(p['F'])) for i, p in enumerate(paras) if 'F' in p]
+
+
+def ws_count_document(ctx, paras, seps, mode, prefix='ws'):
+    """Evidence counters for one parsed document with whitespace-only separator lines: which paragraph kinds stand on
+    either side of a run containing such a line, what the line follows, the line classes, the source."""
+    ctx.count('%s:documents' % prefix)
+    ctx.count('%s:source:%s' % (prefix, mode))
+    ctx.count('%s:source-family:%s' % (prefix, 'list' if mode in ('parse', 'parse-noeol', 'parse-bytes') else 'file'))
+    kinds = ['Files' if 'F' in p else 'License' for p in paras]
+    for i, run in enumerate(seps):
+        wsl = [l for l in run if is_ws_line(l)]
+        if not wsl:
+            continue
+        left = 'header' if i == 0 else kinds[i - 1]
+        ctx.count('%s:sep:%s/%s' % (prefix, left, kinds[i]))
+        ctx.count('%s:run:%s' % (prefix, 'only-whitespace-lines' if len(wsl) == len(run) else
+                                 ('whitespace-line-first-then-empty' if is_ws_line(run[0]) else 'empty-line-first')))
+        if len(run) >= 2:
+            ctx.count('%s:run:2+-lines' % prefix)
+        for l in wsl:
+            ctx.count('%s:line:%s' % (prefix, 'blanks' if '\t' not in l else ('tabs' if ' ' not in l else 'blanks+tabs')))
+        if is_ws_line(run[0]) and i > 0:
+            lp = paras[i - 1]
+            last = para_lines(i - 1, lp)[-1]
+            if last.startswith(' '):
+                ctx.count('%s:whitespace-line-directly-after-continuation-line' % prefix)
+            if 'F' in lp and lp.get('fo', 0) == 1:
+                ctx.count('%s:whitespace-line-directly-after-files-value' % prefix)
+
+
+def ws_control(ctx, paras, seps, mode):
+    """Differential control for a disagreement on a document with whitespace-only separator lines: the SAME document
+    with every such line replaced by an empty line, through the same kind of source.  Returns (files view, ids of all
+    non-header paragraphs), or the exception it raised."""
+    try:
+        c = parse_doc(ctx, doc_lines(paras, seps, plain=True), mode)
+        return _files_view(c), _para_ids(c.all_paragraphs())
+    except Exception as e:
+        return e
+
+
+def ws_judge_parsed(ctx, c, paras, seps, mode, small, prefix='ws'):
+    """all_files_paragraphs() of a parsed document with whitespace-only separators against what was written.  True =>
+    agrees (go on with the queries); False => recorded (violation if the control document with empty separator lines
+    does show what was written, else harness sanity => inconclusive)."""
+    ctx.mon('M.%s.order' % prefix)
+    want = _written_files_view(paras)
+    try:
+        got = _files_view(c)
+    except Exception as e:
+        got = '%s: %s' % (type(e).__name__, e)
+    if got == want:
+        full = _para_ids(c.all_paragraphs())
+        if full != _written_ids(paras):
+            # same Files paragraphs, other paragraphs differ: no effect on any resolution - recorded, not judged here
+            ctx.count('%s:note:non-files-paragraphs-differ-from-written' % prefix)
+            ctx.extra.setdefault('ws_notes', [])
+            if len(ctx.extra['ws_notes']) < 3:
+                ctx.extra['ws_notes'].append('written %r, all_paragraphs() shows %r' % (_written_ids(paras), full))
+        return True
+    ctl = ws_control(ctx, paras, seps, mode)
+    if isinstance(ctl, Exception) or ctl[0] != want:
+        ctx.inconclusive.append('document did not parse to the pattern lists written, with whitespace-only AND with '
+                                'empty separator lines: wrote %r, got %r / %r' % (want, got, ctl))
+        return False
+    if isinstance(got, str):
+        key = 'files-paragraph-listing-raises-on-whitespace-only-separators'
+    elif len(got) < len(want):
+        key = 'files-paragraph-lost-at-whitespace-only-separator'
+    elif len(got) > len(want):
+        key = 'extra-files-paragraph-at-whitespace-only-separator'
+    else:
+        key = 'files-paragraphs-differ-at-whitespace-only-separator'
+    ctx.violation(key, 'all_files_paragraphs() of the parsed document (source %s, separator runs %r) shows %r; written were %r, '
+                  'and the same document with empty separator lines shows exactly those' % (mode, seps, got, want), small)
+    return False
+
+
+def ws_rejected(ctx, exc, paras, seps, mode, small):
+    """Copyright() raised on a document with whitespace-only separators.  True => recorded as a violation (the control
+    document parses to what was written); False => not a separator matter, the caller re-raises."""
+    ctl = ws_control(ctx, paras, seps, mode)
+    if isinstance(ctl, Exception) or ctl[0] != _written_files_view(paras):
+        return False
+    ctx.violation('document-with-whitespace-only-separators-rejected', 'Copyright() over source %s with separator runs %r raised '
+                  '%s: %s; the same document with empty separator lines parses to the Files paragraphs written'
+                  % (mode, seps, type(exc).__name__, exc), small)
+    return True
 
 
 def doc_queries(ctx, case, c, fps, lists, names, earlier_by_idx, phase, small_of=None, mon='M.find', cnt='find', memo=None):
@@ -866,7 +1164,10 @@ def _index_of(fps, obj):
 
 
 def run_doc(ctx, case):
-    c = build_doc(case)
+    seps = case.get('seps')
+    if seps and any(is_ws_line(l) for run in seps for l in run):
+        return run_wsdoc(ctx, case)
+    c = build_doc(ctx, case)
     want_lists = [G.GlobList(p['F']) for p in case['paras'] if 'F' in p]
     fps = list(c.all_files_paragraphs())
     ctx.count('doc:%s' % case['mode'])
@@ -891,6 +1192,56 @@ def run_doc(ctx, case):
                 if old.legal and want_lists[k].legal and old.matches(name) != want_lists[k].matches(name):
                     ctx.mon('M.stale')
             doc_queries(ctx, case, c, fps, want_lists, names, {k: [old]}, '-after-reassign')
+
+
+def run_wsdoc(ctx, case):
+    """A parsed document whose paragraphs are separated by whitespace-only lines (mixed with empty ones): judged like
+    every other parsed document - all_files_paragraphs() against what was written (M.ws.order), find_files_paragraph
+    against the last-match rule (M.ws.find), every paragraph's matches() against the glob model (M.match)."""
+    paras, seps, mode, names = case['paras'], case['seps'], case['mode'], case['names']
+    small = dict(case)
+    small['names'] = names[:1]
+    ws_count_document(ctx, paras, seps, mode)
+    try:
+        c = build_doc(ctx, case)
+    except Exception as e:
+        ctx.mon('M.ws.order')
+        if ws_rejected(ctx, e, paras, seps, mode, small):
+            return
+        raise
+    if not ws_judge_parsed(ctx, c, paras, seps, mode, small):
+        return
+    want_lists = [G.GlobList(p['F']) for p in paras if 'F' in p]
+    fps = list(c.all_files_paragraphs())
+    ctx.count('ws:%d-files-paragraphs' % min(len(want_lists), 7))
+    ctx.evaluations += max(0, len(names) - 1)
+    before = ctx.counters['op:matches']
+    doc_queries(ctx, case, c, fps, want_lists, names, {}, '-ws', mon='M.ws.find', cnt='ws-find')
+    ctx.count('ws:matches-observed', ctx.counters['op:matches'] - before)
+    if any(not gl.legal for gl in want_lists):
+        return
+    # which Files paragraphs stand directly in front of / behind a run with a whitespace-only line
+    kinds = [('F' in p) for p in paras]
+    fidx, k = {}, 0
+    for i, isf in enumerate(kinds):
+        if isf:
+            fidx[i] = k
+            k += 1
+    next_to_ws = set()
+    for i, run in enumerate(seps):
+        if any(is_ws_line(l) for l in run):
+            if kinds[i]:
+                next_to_ws.add(fidx[i])
+            if i > 0 and kinds[i - 1]:
+                next_to_ws.add(fidx[i - 1])
+    for name in names:
+        hits = [j for j, gl in enumerate(want_lists) if gl.matches(name)]
+        if hits and hits[-1] in next_to_ws:
+            ctx.count('ws-find:resolves-to-paragraph-next-to-whitespace-only-separator')
+        if hits and any(j in next_to_ws for j in hits[:-1]):
+            ctx.count('ws-find:shadowed-match-next-to-whitespace-only-separator')
+        if not hits and next_to_ws:
+            ctx.count('ws-find:none-matches-in-document-with-whitespace-only-separator')
 
 
 def _para_ids(paragraphs):
@@ -944,16 +1295,35 @@ def run_build(ctx, case):
     start, ops, names = case['start'], case['ops'], case['names']
     st = _BuildState()
     parsed = start['mode'] != 'empty'
+    ws = False
     ctx.count('build:histories')
     ctx.count('build:start-%s' % start['mode'])
     if not parsed:
         c = cp.Copyright()
     else:
-        text = doc_text(start['paras'])
-        c = cp.Copyright(io.StringIO(text)) if start['mode'] == 'parse-file' else cp.Copyright(text.splitlines(True))
+        seps = start.get('seps')
+        ws = bool(seps) and any(is_ws_line(l) for run in seps for l in run)
+        small0 = {'kind': 'build', 'start': start, 'ops': [['q', 7]], 'names': names[:1]}
+        if ws:
+            ws_count_document(ctx, start['paras'], seps, start['mode'], 'ws-build')
+        try:
+            c = parse_doc(ctx, doc_lines(start['paras'], seps), start['mode'])
+        except Exception as e:
+            if ws:
+                ctx.mon('M.ws-build.order')
+                if ws_rejected(ctx, e, start['paras'], seps, start['mode'], small0):
+                    return
+            raise
+        if ws and not ws_judge_parsed(ctx, c, start['paras'], seps, start['mode'], small0, 'ws-build'):
+            return
         live = [p for p in c.all_paragraphs() if not isinstance(p, cp.Header)]
-        want = [('c%d' % i) if 'F' in p else ('L%d' % i) for i, p in enumerate(start['paras'])]
+        want = _written_ids(start['paras'])
         ok = _para_ids(live) == want
+        if ws and not ok:
+            # Files paragraphs as written (judged above); only stand-alone License paragraphs differ: no resolution is
+            # affected, but the model of the history needs the document as written - the history is not driven
+            ctx.count('ws-build:start-not-driven-non-files-paragraphs-differ')
+            return
         if ok:
             for i, (p, obj) in enumerate(zip(start['paras'], live)):
                 if 'F' in p:
@@ -1063,6 +1433,8 @@ def run_build(ctx, case):
             res = doc_queries(ctx, case, c, fps, lists, names, earlier, '-build', small_of=lambda name: small,
                               mon='M.build.find', cnt='build-find', memo=memo)
             ctx.evaluations += len(names)
+            if ws:
+                ctx.count('ws-build:find-on-history-from-start-with-whitespace-only-separators', len(names))
             if not any_illegal:
                 for name in names:
                     hits = [k for k, gl in enumerate(lists) if gl.matches(name)]
@@ -1210,11 +1582,25 @@ def finish(ctx):
                                          % (ln, pa, pl, na, nl) for (pa, pl, ln, na, nl) in _enum_specs(ctx.tier)]
 
 
-# ~50% of what a run on the current tree measures (seed 0)
-FLOORS = {'quick': {'nontrivial': 240000,
-                    'monitors': {'M.match': 350000, 'M.find': 36000, 'M.error': 13000, 'M.stale': 13000,
+# ~50% of what a run on the current tree measures (quick: minimum over seeds 0-3; thorough: seed 0)
+FLOORS = {'quick': {'nontrivial': 290000,
+                    'monitors': {'M.match': 450000, 'M.ws.order': 1800, 'M.ws.find': 9000, 'M.ws-build.order': 300, 'M.find': 36000, 'M.error': 13000, 'M.stale': 13000,
                                  'M.build.find': 64000, 'M.build.order': 10000, 'M.build.reparse': 9900},
-                    'counters': {'nontrivial:near-miss': 160000, 'nontrivial:hit': 130000,
+                    'counters': {'nontrivial:near-miss': 195000, 'nontrivial:hit': 164000,
+                                 # parsed documents with whitespace-only separator lines
+                                 'ws:documents': 1800, 'ws:sep:header/Files': 970, 'ws:sep:Files/Files': 1400,
+                                 'ws:sep:Files/License': 920, 'ws:sep:License/Files': 880,
+                                 'ws:source-family:list': 780, 'ws:source-family:file': 990,
+                                 'ws:line:blanks': 1900, 'ws:line:tabs': 1400, 'ws:line:blanks+tabs': 2400,
+                                 'ws:run:only-whitespace-lines': 2000, 'ws:run:whitespace-line-first-then-empty': 1200,
+                                 'ws:run:empty-line-first': 1200,
+                                 'ws:whitespace-line-directly-after-continuation-line': 1250,
+                                 'ws:whitespace-line-directly-after-files-value': 690,
+                                 'ws:matches-observed': 23000, 'ws-find:several-paragraphs-match': 2200,
+                                 'ws-find:resolves-to-paragraph-next-to-whitespace-only-separator': 5600,
+                                 'ws-find:shadowed-match-next-to-whitespace-only-separator': 2100,
+                                 'ws-build:documents': 300,
+                                 'ws-build:find-on-history-from-start-with-whitespace-only-separators': 7300,
                                  'find:several-paragraphs-match': 7000, 'op:find-after-reassign': 11000,
                                  'op:match-after-2+-unobserved-assignments': 2000,
                                  'raw:list-with-whitespace': 2400, 'raw:matches-observed': 23000,
@@ -1230,9 +1616,23 @@ FLOORS = {'quick': {'nontrivial': 240000,
                                  'build:first-files-paragraph-added-to-license-only-document': 440}},
           # distinct_nontrivial is bounded by the per-shard recording cap (14 x 400000) in this tier
           'thorough': {'nontrivial': 2700000,
-                       'monitors': {'M.match': 14800000, 'M.find': 1400000, 'M.error': 790000, 'M.stale': 530000,
+                       'monitors': {'M.match': 19000000, 'M.ws.order': 75000, 'M.ws.find': 370000, 'M.ws-build.order': 9000, 'M.find': 1400000, 'M.error': 790000, 'M.stale': 530000,
                                     'M.build.find': 2380000, 'M.build.order': 365000, 'M.build.reparse': 350000},
-                       'counters': {'nontrivial:near-miss': 6500000, 'nontrivial:hit': 5300000,
+                       'counters': {'nontrivial:near-miss': 7900000, 'nontrivial:hit': 6700000,
+                                    # parsed documents with whitespace-only separator lines
+                                    'ws:documents': 75000, 'ws:sep:header/Files': 39800, 'ws:sep:Files/Files': 94800,
+                                    'ws:sep:Files/License': 51300, 'ws:sep:License/Files': 49400,
+                                    'ws:source-family:list': 33200, 'ws:source-family:file': 41700,
+                                    'ws:line:blanks': 105000, 'ws:line:tabs': 79600, 'ws:line:blanks+tabs': 132000,
+                                    'ws:run:only-whitespace-lines': 113000, 'ws:run:whitespace-line-first-then-empty': 68000,
+                                    'ws:run:empty-line-first': 68000,
+                                    'ws:whitespace-line-directly-after-continuation-line': 74500,
+                                    'ws:whitespace-line-directly-after-files-value': 42500,
+                                    'ws:matches-observed': 1290000, 'ws-find:several-paragraphs-match': 125000,
+                                    'ws-find:resolves-to-paragraph-next-to-whitespace-only-separator': 244000,
+                                    'ws-find:shadowed-match-next-to-whitespace-only-separator': 118000,
+                                    'ws-build:documents': 9000,
+                                    'ws-build:find-on-history-from-start-with-whitespace-only-separators': 275000,
                                     'find:several-paragraphs-match': 388000, 'op:find-after-reassign': 440000,
                                     'op:match-after-2+-unobserved-assignments': 84000,
                                     'raw:list-with-whitespace': 129000, 'raw:matches-observed': 700000,
